@@ -236,7 +236,7 @@ def no_ties_T(db):
   return True
 
 
-DB_FILTERS = {'no_ties_T': no_ties_T}
+DB_FILTERS = {'no_ties_T': no_ties_T, 'distinct_rows_T': lambda db: len(set(db['T'])) == len(db['T']) and len(db['T']) >= 3}
 
 
 def _groups(rows, key, val):
@@ -534,7 +534,83 @@ WORKFLOW = [
     tags=('C14', 'C17'), workflow=True, together=True, cap={'quick': 25, 'thorough': 200}),
 ]
 
-ALL = CORE + AGG + ORDER + SUGAR + RECURSION + FUNCTORS + WORKFLOW
+import json as _json
+
+LISTS = ['[]', '[1]', '[2,1]', '[3,1,2]', '[1,1]']
+_ld = lambda l: _json.loads(l)
+
+
+def _argk(rows, k, reverse):
+  out = {}
+  for (g, a, v) in rows:
+    out.setdefault(g, []).append((v, a))
+  return [(g, J([a for v, a in sorted(vs, reverse=reverse)][:k])) for g, vs in out.items()]
+
+
+BUILTINS = [
+  S('bi_range', 'R(n, Range(n)) :- N(n);\nRS(n, Size(Range(n))) :- N(n);\nRI(n, i) :- N(n), i in Range(n);\n'
+    'RL(Range(0), Size(Range(0)));', {'N': 1},
+    {'R': lambda db: [(n, J(list(range(n)))) for (n,) in db['N']],
+     'RS': lambda db: [(n, len(range(n))) for (n,) in db['N']],
+     'RI': lambda db: [(n, i) for (n,) in db['N'] for i in range(n)],
+     'RL': lambda db: [('[]', 0)]}, tags=('C20',), domain=[0, 1, 2, 3]),
+  S('bi_lists', 'Sz(l, Size(l)) :- L(l);\nEl(l, i, Element(l, i)) :- L(l), N(i), i < Size(l);\n'
+    'Ix(l, i, l[i]) :- L(l), N(i), i < Size(l);\nIn(x, l) :- N(x), L(l), x in l;\nSo(l, Sort(l)) :- L(l);\n'
+    'Cc(a, b, ArrayConcat(a, b)) :- L(a), L(b);\nJn(l, Join(l, "-")) :- L(l);', {'L': 1, 'N': 1},
+    {'Sz': lambda db: [(l, len(_ld(l))) for (l,) in db['L']],
+     'El': lambda db: [(l, i, _ld(l)[i]) for (l,) in db['L'] for (i,) in db['N'] if i < len(_ld(l))],
+     'Ix': lambda db: [(l, i, _ld(l)[i]) for (l,) in db['L'] for (i,) in db['N'] if i < len(_ld(l))],
+     'In': lambda db: [(x, l) for (x,) in db['N'] for (l,) in db['L'] for e in _ld(l) if e == x],
+     'So': lambda db: [(l, J(sorted(_ld(l)))) for (l,) in db['L']],
+     'Cc': lambda db: [(a, b, J(_ld(a) + _ld(b))) for (a,) in db['L'] for (b,) in db['L']],
+     'Jn': lambda db: [(l, '-'.join(map(str, _ld(l)))) for (l,) in db['L']]},
+    tags=('C20',), domains={'L': [(x,) for x in LISTS], 'N': [(0,), (1,), (2,)]}, max_rows={'quick': 2, 'thorough': 3},
+    row_norm='json_compact'),
+  S('bi_strings', 'Cat(a, b, a ++ b) :- W(a), W(b);\nSp(a, Split(a, ",")) :- W(a);\nTs(n, ToString(n)) :- N(n);\n'
+    'Ti(ToInt64("12"), ToInt64("-3"));', {'W': 1, 'N': 1},
+    {'Cat': lambda db: [(a, b, a + b) for (a,) in db['W'] for (b,) in db['W']],
+     'Sp': lambda db: [(a, J(a.split(','))) for (a,) in db['W']],
+     'Ts': lambda db: [(n, str(n)) for (n,) in db['N']], 'Ti': lambda db: [(12, -3)]},
+    tags=('C20',), domains={'W': [('',), ('a',), ('b,a',)], 'N': [(-1,), (0,), (2,)]}, row_norm='json_compact'),
+  S('bi_arith', 'A(x, y, x + y, x - y, x * y, -x) :- N(x), N(y);\nM(x, y, x % y) :- N(x), N(y), y > 0, x >= 0;\n'
+    'G(x, y, Greatest(x, y), Least(x, y)) :- N(x), N(y);\n'
+    'C(x, y, x < y, x <= y, x > y, x >= y, x == y, x != y) :- N(x), N(y);', {'N': 1},
+    {'A': lambda db: [(x, y, x + y, x - y, x * y, -x) for (x,) in db['N'] for (y,) in db['N']],
+     'M': lambda db: [(x, y, x % y) for (x,) in db['N'] for (y,) in db['N'] if y > 0 and x >= 0],
+     'G': lambda db: [(x, y, max(x, y), min(x, y)) for (x,) in db['N'] for (y,) in db['N']],
+     'C': lambda db: [(x, y, int(x < y), int(x <= y), int(x > y), int(x >= y), int(x == y), int(x != y))
+                      for (x,) in db['N'] for (y,) in db['N']]},
+    tags=('C20',), domain=[-1, 0, 1, 2]),
+  # aggregates: every multiset of rows and every insertion order of the rows
+  S('bi_aggregates', 'Sm(g) += v :- T(g, a, v);\nMn(g) Min= v :- T(g, a, v);\nMx(g) Max= v :- T(g, a, v);\n'
+    'Av(g) Avg= v :- T(g, a, v);\nCt(g) Count= v :- T(g, a, v);\nLs(g) List= v :- T(g, a, v);\n'
+    'St(g) Set= v :- T(g, a, v);', {'T': 3},
+    {'Sm': lambda db: agg(db['T'], lambda r: (r[0],), lambda r: r[2], sum),
+     'Mn': lambda db: agg(db['T'], lambda r: (r[0],), lambda r: r[2], min),
+     'Mx': lambda db: agg(db['T'], lambda r: (r[0],), lambda r: r[2], max),
+     'Av': lambda db: agg(db['T'], lambda r: (r[0],), lambda r: r[2], lambda v: sum(v) / len(v)),
+     'Ct': lambda db: agg(db['T'], lambda r: (r[0],), lambda r: r[2], lambda v: len(set(v))),
+     'Ls': lambda db: agg(db['T'], lambda r: (r[0],), lambda r: r[2], lambda v: J(sorted(v))),
+     'St': lambda db: agg(db['T'], lambda r: (r[0],), lambda r: r[2], lambda v: J(sorted(set(v))))},
+    tags=('C20', 'C07'), domains={'T': [(g, a, v) for g in (0, 1) for a in ('p', 'q') for v in (0, 2, 5)]},
+    max_rows={'quick': 3, 'thorough': 4}, cap={'quick': 250, 'thorough': 3000}, row_norm='sort_json_lists',
+    row_orders=True),
+  S('bi_arg_aggregates', 'ArgMax2(x) = ArgMaxK(x, 2);\nArgMin2(x) = ArgMinK(x, 2);\nArgMin3(x) = ArgMinK(x, 3);\n'
+    'Lo(g) ArgMin= a -> v distinct :- T(g, a, v);\nHi(g) ArgMax= a -> v distinct :- T(g, a, v);\n'
+    'Lo2(g) ArgMin2= a -> v distinct :- T(g, a, v);\nHi2(g) ArgMax2= a -> v distinct :- T(g, a, v);\n'
+    'Lo3(g) ArgMin3= a -> v distinct :- T(g, a, v);\nAr(g) Array= v -> a distinct :- T(g, a, v);', {'T': 3},
+    {'Lo': lambda db: [(g, _ld(l)[0]) for (g, l) in _argk(db['T'], 1, False)],
+     'Hi': lambda db: [(g, _ld(l)[0]) for (g, l) in _argk(db['T'], 1, True)],
+     'Lo2': lambda db: _argk(db['T'], 2, False), 'Hi2': lambda db: _argk(db['T'], 2, True),
+     'Lo3': lambda db: _argk(db['T'], 3, False), 'Ar': lambda db: _argk(db['T'], None, False)},
+    tags=('C20', 'C07', 'C02'),
+    dbs=[{'T': [(0, 'p', 50), (0, 'q', 40), (0, 'r', 30), (0, 's', 35), (0, 't', 10)]},
+         {'T': [(0, 'p', 1), (0, 'q', 2), (0, 'r', 3), (1, 's', 4)]},
+         {'T': [(0, 'p', 3), (0, 'q', 1)]}, {'T': []}],
+    row_orders=True, row_norm='json_compact'),
+]
+
+ALL = CORE + AGG + ORDER + SUGAR + RECURSION + FUNCTORS + WORKFLOW + BUILTINS
 
 
 def by_tag(tag):
